@@ -117,7 +117,8 @@ func (c *Ctx) c16Stored(pm *pairModel) {
 				for _, ref := range *ev.Referrers() {
 					if fa, ok := ref.(*ssa.FieldAddr); ok && eng.SameField(eng.FieldOfAddr(fa), fID) {
 						for _, r2 := range *fa.Referrers() {
-							if st, ok := r2.(*ssa.Store); ok && st.Val == idv && eng.Dominates(st, call) {
+							// the id may arrive through the parameter of an emitting helper
+							if st, ok := r2.(*ssa.Store); ok && (st.Val == idv || p.Actual(st.Val) == idv) && eng.Dominates(st, call) {
 								okID = true
 							}
 						}
